@@ -1,5 +1,6 @@
 import SlipVerif.Lemmas.PrinterMain
 import SlipVerif.Lemmas.PrinterPretty
+import SlipVerif.Lemmas.PrinterPrettyRead
 import SlipVerif.Lemmas.Wire6
 /-
   C03 — printing then reading gives back an equal object of the same type; pretty printing changes
@@ -19,13 +20,11 @@ import SlipVerif.Lemmas.Wire6
       keep output readable →
         readAll (printFlat cfg x) = x  ∧  readAll (printPretty cfg margin x) = x   (equal, same type)
 
-  What is proved is `print_read_roundtrip_partial` (flat text, whole float-free universe, every
-  readable configuration, no size or depth bound) together with `pretty_only_whitespace` (the pretty
-  text is the flat token sequence with white space between tokens, for every margin). Missing:
-  floats (Lean's `Float` is opaque to the kernel; they are covered by the witness search on the
-  implementation only), and the composition "the reader skips the pretty printer's white space
-  exactly where the flat text has one space" at character level (the reader's `skipWs` makes it
-  true token by token; `pretty_only_whitespace` states it at token level).
+  What is proved is `print_read_roundtrip_partial` (flat text) and `pretty_read_roundtrip` (pretty
+  text, every margin) for the whole float-free universe, every readable configuration, no size or
+  depth bound, together with `pretty_only_whitespace` (the pretty text is the flat token sequence
+  with blank-only separators). Missing: floats (Lean's `Float` is opaque to the kernel; they are
+  covered by the witness search on the implementation only).
 -/
 namespace SlipVerif.Theorems.C03
 open SlipVerif.Printer
@@ -155,6 +154,31 @@ theorem pretty_only_whitespace (cfg : PCfg) (margin offset closes : Nat) (x : Ob
     (prettyPieces cfg margin offset closes x).map Piece.isSep = (flatPieces cfg x).map Piece.isSep ∧
     renderPieces (flatPieces cfg x) = printFlat cfg x :=
   pretty_pieces_spec cfg margin offset closes x
+
+/-- pretty_read_roundtrip (character level): for every float-free object built from readable data,
+    every readable configuration and every right margin, reading the pretty text gives exactly one
+    object, the same one the flat text gives, equal to the original: the reader skips the layout's
+    blanks and newlines. -/
+theorem pretty_read_roundtrip (hT : TablesOK) (cfg : PCfg) (hC : CfgOK cfg) (margin : Nat) (x : Obj) (hwf : WF x) :
+    ∃ y, readAll 10 (printPretty cfg margin x) = .ok y ∧ readAll 10 (printFlat cfg x) = .ok y ∧ objEq x y = true := by
+  refine ⟨recase cfg.case x, ?_, ?_, objEq_recase cfg.case x⟩
+  · have hlen := (pretty_size_le_length hT cfg hC margin x).1 hwf 0 0
+    have h := (pretty_struct_roundtrip hT cfg hC margin x).1 hwf 0 0 []
+      (3 * (printPretty cfg margin x).length + 4) rfl (by unfold printPretty; omega)
+    rw [List.append_nil] at h
+    unfold readAll
+    unfold printPretty at h ⊢
+    rw [h]
+    rfl
+  · have hlen := (size_le_length hT cfg hC x).1 hwf
+    have h := (struct_roundtrip hT cfg hC x).1 hwf [] (3 * (printFlat cfg x).length + 4) rfl (by omega)
+    rw [List.append_nil] at h
+    unfold readAll
+    rw [h]
+    rfl
+
+example : printPretty { base := 10 } 14 (.cons (.sym "alpha".toList) (.cons (.sym "beta".toList) (.cons (.sym "gamma".toList) .nil))) =
+    "(alpha beta\n       gamma)".toList := by decide
 
 /-- wire_roundtrip: a payload of at most `maxMessageSize` (1 MiB) bytes framed with the 6-digit
     hexadecimal length header is given back unchanged by the reader of the wire, together with
